@@ -10,6 +10,7 @@ import (
 	"runtime/debug"
 	"strings"
 	"testing"
+	"time"
 
 	"github.com/gabriel-vasile/mimetype/internal/charset"
 	ijson "github.com/gabriel-vasile/mimetype/internal/json"
@@ -45,6 +46,7 @@ func c01Check(c c01Case) vfResult {
 	}
 	x := []byte(c.X)
 	vfJournal("C01", "gen", c)
+	defer vfWatchdog("C01", "gen", c, 40*time.Second)()
 	h := vfExact(vfHeader(x, c.Limit))
 	xe := vfExact(x)
 	var r vfResult
@@ -118,7 +120,7 @@ func c01Check(c c01Case) vfResult {
 
 func c01Gen(t *rapid.T) c01Case {
 	var x []byte
-	switch rapid.IntRange(0, 6).Draw(t, "k") {
+	switch rapid.IntRange(0, 7).Draw(t, "k") {
 	case 0:
 		x = rapid.SliceOfN(rapid.Byte(), 0, 64).Draw(t, "rand")
 	case 1, 2, 3:
@@ -127,6 +129,13 @@ func c01Gen(t *rapid.T) c01Case {
 		x = c01Structured(t)
 	case 5:
 		x = vfMutate(t, []byte(vfGenTextish(t)), 3)
+	case 6:
+		if rapid.Bool().Draw(t, "xml") {
+			x = []byte(c12GenXML(t).Doc)
+		} else {
+			x = []byte(c12GenHTML(t).Doc)
+		}
+		x = vfMutate(t, x, 2)
 	default:
 		x = vfGenAnyInput(t)
 	}
